@@ -142,7 +142,18 @@ def _sampling_cfg(rng):
 
 def sampling_history(rng, hid):
     kind, c = sampling_cfg(rng)
-    calls = [["setup", "e1", "S"]]
+    calls = []
+    cfgs = {"S": c}
+    if rng.random() < 0.25:
+        # the engine object has been used before: an earlier simulation run to completion (released or not) must not
+        # leak into what this set-up samples or reports
+        cfgs["P"] = H.cfgs_for(kind, c.get("space", "grid"))[rng.choice(["A", "B", "C"])]
+        calls += [["setup", "e1", "P"], ["iterate_n", "e1", 200]]
+        if rng.random() < 0.5:
+            calls.append(["finalize", "e1"])
+    calls.append(["setup", "e1", "S"])
+    if rng.random() < 0.3:
+        calls += [["is_complete", "e1"], ["iterate_n", "e1", 0]]
     budget = rng.randint(5, 60)
     psample = rng.choice([0, 0, 0.1, 0.3])
     for _ in range(budget):
@@ -156,7 +167,7 @@ def sampling_history(rng, hid):
             calls.append(["get_progress", "e1"])
     calls += [["get_output", "e1"], ["iterate", "e1"], ["sample", "e1"], ["iterate", "e1"], ["sample", "e1"],
               ["is_complete", "e1"], ["get_output", "e1"], ["finalize", "e1"]]
-    return {"id": hid, "kinds": {"e1": kind}, "cfgs": {"S": c}, "calls": calls, "view": "own"}
+    return {"id": hid, "kinds": {"e1": kind}, "cfgs": cfgs, "calls": calls, "view": "own"}
 
 
 def run(tier, selftest=False, only=None):
